@@ -112,6 +112,65 @@ func mkCert(rnd *gen.DetReader, pub any, parent *smx509.Certificate, parentKey a
 	return must(smx509.ParseCertificate(der))
 }
 
+// selfChecks uses the (attacker-supplied) key of a parsed certificate the way a
+// verifier of self-signed or attacker-chained certificates does: as the issuer
+// key of the certificate itself, of arbitrary signed bytes, and as a chain root.
+func selfChecks(c *smx509.Certificate) {
+	c.CheckSignatureFrom(c)
+	c.CheckSignature(c.SignatureAlgorithm, c.RawTBSCertificate, c.Signature)
+	c.CheckSignature(smx509.SM2WithSM3, c.RawTBSCertificate, c.Signature)
+	pool := smx509.NewCertPool()
+	pool.AddCert(c)
+	c.Verify(smx509.VerifyOptions{Roots: pool, CurrentTime: refNotBefore.Add(time.Hour), KeyUsages: []x509.ExtKeyUsage{x509.ExtKeyUsageAny}})
+}
+
+// addForeignTargets: the sm2 package's verification and decryption entry points
+// handed keys on other curves (generic code of sm2_legacy.go and the helpers
+// shared with the SM2 path), fed hostile signatures / ciphertexts / identifiers.
+func addForeignTargets(add func(group, name string, call func([]byte) int, seeds ...[]byte) *target, hash, msg, sig []byte) {
+	for _, fk := range foreignKeys() {
+		fk := fk
+		n := fk.name
+		add("sm2", "sm2.VerifyASN1WithSM2("+n+")", func(b []byte) int { return db(sm2.VerifyASN1WithSM2(fk.pub, nil, msg, b)) }, sig)
+		add("sm2", "sm2.VerifyASN1("+n+")", func(b []byte) int { return db(sm2.VerifyASN1(fk.pub, hash, b)) }, sig)
+		add("sm2", "sm2.VerifyASN1("+n+",hash=input)", func(b []byte) int { return db(sm2.VerifyASN1(fk.pub, b, sig)) }, hash)
+		add("sm2", "sm2.CalculateZA("+n+",uid=input)", func(b []byte) int { _, err := sm2.CalculateZA(fk.pub, b); return d(err) }, []byte("alice@example.com"))
+		bl := (fk.pub.Curve.Params().BitSize + 7) / 8
+		add("sm2", "sm2.VerifyWithSM2("+n+",rs=input)", func(b []byte) int {
+			h2 := len(b) / 2
+			r, s := new(big.Int).SetBytes(b[:h2]), new(big.Int).SetBytes(b[h2:])
+			return db(sm2.VerifyWithSM2(fk.pub, nil, msg, r, s)) + db(sm2.Verify(fk.pub, hash, r, s))
+		}, gen.Fill(0x51, 2*bl))
+		if n == "P-256" {
+			continue // legacy decryption on NIST P-256 is covered above
+		}
+		lk := new(sm2.PrivateKey)
+		lk.Curve = fk.pub.Curve
+		lk.D = new(big.Int).SetBytes(gen.Fill(0xD0, bl-1))
+		lk.X, lk.Y = lk.Curve.ScalarBaseMult(lk.D.Bytes())
+		var seeds [][]byte
+		for _, o := range []*sm2.EncrypterOpts{nil, sm2.ASN1EncrypterOpts, sm2.NewPlainEncrypterOpts(sm2.MarshalCompressed, sm2.C1C2C3)} {
+			// (guarded: building a seed must not take the whole process down when
+			// the code under test is broken for this curve - the targets report it)
+			func() {
+				defer func() { recover() }()
+				if ct, err := sm2.Encrypt(gen.NewDetReader(0xC13F), &lk.PublicKey, msg, o); err == nil {
+					seeds = append(seeds, ct)
+				}
+			}()
+		}
+		if len(seeds) == 0 {
+			seeds = append(seeds, append([]byte{4}, gen.Fill(0x52, 2*bl+32+len(msg))...))
+		}
+		add("sm2", "sm2.legacy.Decrypt("+n+")", func(b []byte) int {
+			_, e1 := sm2.Decrypt(lk, b)
+			_, e2 := lk.Decrypt(nil, b, sm2.NewPlainDecrypterOpts(sm2.C1C2C3))
+			_, e3 := lk.Decrypt(nil, b, sm2.ASN1DecrypterOpts)
+			return d(e1) + d(e2) + d(e3)
+		}, seeds...)
+	}
+}
+
 func buildTargets() []*target {
 	var ts []*target
 	add := func(group, name string, call func([]byte) int, seeds ...[]byte) *target {
@@ -222,6 +281,8 @@ func buildTargets() []*target {
 		h2 := len(b) / 2
 		return db(sm2.Verify(&lk.PublicKey, hash, new(big.Int).SetBytes(b[:h2]), new(big.Int).SetBytes(b[h2:])))
 	}, append(lsigR.FillBytes(make([]byte, 32)), lsigS.FillBytes(make([]byte, 32))...))
+
+	addForeignTargets(add, hash, msg, sig)
 
 	// ------------------------------------------------------------ ecdh
 	ek := must(ecdh.P256().GenerateKey(rnd))
@@ -346,6 +407,7 @@ func buildTargets() []*target {
 		c, err := smx509.ParseCertificate(b)
 		if err == nil {
 			c.CheckSignatureFrom(ca)
+			selfChecks(c)
 			pool := smx509.NewCertPool()
 			pool.AddCert(ca)
 			c.Verify(smx509.VerifyOptions{Roots: pool, CurrentTime: refNotBefore.Add(time.Hour), DNSName: "a.example.com", KeyUsages: []x509.ExtKeyUsage{x509.ExtKeyUsageAny}})
@@ -358,6 +420,7 @@ func buildTargets() []*target {
 		c, err := smx509.ParseCertificate(b)
 		if err == nil {
 			c.CheckSignatureFrom(ca)
+			selfChecks(c)
 			pool := smx509.NewCertPool()
 			pool.AddCert(ca)
 			c.Verify(smx509.VerifyOptions{Roots: pool, CurrentTime: refNotBefore.Add(time.Hour)})
@@ -633,6 +696,8 @@ func buildTargets() []*target {
 	}, sa, sdet, sdig)
 	add("cfca", "cfca.ParseEscrowPrivateKey", func(b []byte) int { _, err := cfca.ParseEscrowPrivateKey(tmpKey, b); return d(err) },
 		[]byte("00000000000000010000000000000001000000000000000000000000000000000000000000000268"+strings.Repeat("A", 100)))
+
+	addCipherTargets(add)
 
 	// ------------------------------------------------------------ padding
 	for _, bs := range []uint{1, 3, 8, 16, 32} {
